@@ -1295,6 +1295,13 @@ def call_bound(it, recv, name, args, kwargs, node):
         except ShapeMismatch as e:
             it.shape_errors.append((it.site(node), "%s: %s" % (name, e)))
             return it.fresh(None, None, recv.kind, node)
+    if isinstance(recv, VUnknown) and getattr(recv, "storage_of", None) is not None and name == "data_ptr":
+        o = recv.storage_of
+        roots = sorted(r.id for r in o.roots())
+        # the address of the storage: equal for a tensor and all its views, different for separately allocated tensors;
+        # 'maybe' when the tensor may or may not share storage with another one (maybe-views)
+        tag = "ptr:S%d" % o.id if len(roots) == 1 else "ptr:S?%s" % "_".join(map(str, roots))
+        return VNum("int", T.sym(tag), nonneg=True)
     if isinstance(recv, VDict):
         return dict_method(it, recv, name, args, kwargs, node)
     if isinstance(recv, VList):
